@@ -436,11 +436,103 @@ func (tg *txnGen) wait(t *dyn.Table) TOp {
 }
 
 // spoil makes one operation of the transaction fail.
+// commitReject: a reference is dropped from one of several referrers of a row (or a referenced row is touched in
+// another way), every operation succeeds, and an insert duplicating an index value makes the commit fail.
+func (tg *txnGen) commitReject() []TOp {
+	g := tg.g
+	var ops []TOp
+	// the duplicate: a root table with an index and an existing row
+	var dup *TOp
+	for _, ti := range g.R.Perm(len(tg.sc.Tables)) {
+		t := &tg.sc.Tables[ti]
+		us := tg.uuidsOf(t.Name)
+		if !t.IsRoot || len(t.Indexes) == 0 || len(us) == 0 {
+			continue
+		}
+		src := tg.state[t.Name][us[g.Intn(len(us))]]
+		row := map[string]val.Val{}
+		for _, c := range t.Cols {
+			if c.Min > 0 && c.K != 'a' {
+				row[c.Name] = src[c.Name]
+			}
+		}
+		for _, c := range t.Indexes[g.Intn(len(t.Indexes))] {
+			row[c] = src[c]
+		}
+		dup = &TOp{Kind: "insert", Table: t.Name, UUID: tg.fresh(), Row: row}
+		break
+	}
+	if dup == nil {
+		return nil
+	}
+	// a referrer among several of the same target, through the same set column
+	for _, ti := range g.R.Perm(len(tg.sc.Tables)) {
+		t := &tg.sc.Tables[ti]
+		for _, c := range t.Cols {
+			if c.K != 's' || c.RefTable == "" {
+				continue
+			}
+			byTarget := map[string][]string{}
+			for _, u := range tg.uuidsOf(t.Name) {
+				for _, a := range tg.state[t.Name][u][c.Name].Set {
+					byTarget[a.S] = append(byTarget[a.S], u)
+				}
+			}
+			for target, refs := range byTarget {
+				if len(refs) < 2 || len(ops) > 0 {
+					continue
+				}
+				keep := len(tg.state[t.Name][refs[0]][c.Name].Set)
+				if keep <= c.Min {
+					continue
+				}
+				r := refs[g.Intn(len(refs))]
+				ops = append(ops, TOp{Kind: "mutate", Table: t.Name, Where: []Cond{{Col: "_uuid", Fn: "==", Arg: val.VA(val.Uuid(r))}},
+					Muts: []Mut{{Col: c.Name, Mutator: "delete", Arg: val.VS(val.Uuid(target))}}})
+			}
+		}
+	}
+	if len(ops) == 0 {
+		// no row has two referrers yet: make one (a transaction that commits), the rejection comes in a later transaction
+		for _, ti := range g.R.Perm(len(tg.sc.Tables)) {
+			t := &tg.sc.Tables[ti]
+			us := tg.uuidsOf(t.Name)
+			for _, c := range t.Cols {
+				if c.K != 's' || c.RefTable == "" || len(us) < 2 || (c.Max > 0 && c.Max < 2) {
+					continue
+				}
+				for _, u := range us {
+					for _, a := range tg.state[t.Name][u][c.Name].Set {
+						for _, other := range us {
+							has := false
+							for _, b := range tg.state[t.Name][other][c.Name].Set {
+								has = has || b.S == a.S
+							}
+							if other != u && !has && (c.Max <= 0 || len(tg.state[t.Name][other][c.Name].Set) < c.Max) {
+								return []TOp{{Kind: "mutate", Table: t.Name, Where: []Cond{{Col: "_uuid", Fn: "==", Arg: val.VA(val.Uuid(other))}},
+									Muts: []Mut{{Col: c.Name, Mutator: "insert", Arg: val.VS(a)}}}}
+							}
+						}
+					}
+				}
+			}
+		}
+		if g.Chance(0.5) {
+			return nil
+		}
+	}
+	return append(ops, *dup)
+}
+
 func (tg *txnGen) spoil(ops []TOp) []TOp {
 	g := tg.g
 	i := g.Intn(len(ops))
 	t := tg.sc.Table(ops[i].Table)
-	switch g.Intn(7) {
+	switch g.Intn(9) {
+	case 7, 8: // operations that all succeed and move references, then a rejection at commit time (duplicate index value)
+		if extra := tg.commitReject(); len(extra) > 0 {
+			return extra
+		}
 	case 6: // delete a row and insert a row with the same uuid again (the update sequence cannot be merged)
 		if us := tg.uuidsOf(t.Name); len(us) > 0 {
 			u := us[g.Intn(len(us))]
